@@ -170,3 +170,17 @@ func Cwd() string { return K.cfg.Cwd }
 // Aborting reports whether the current run is being unwound; facade
 // operations are no-ops then.
 func Aborting() bool { return K != nil && K.aborting }
+
+var nextObj uint64
+
+// ObjID returns the identity of a facade object, assigning one on first use.
+// Addresses are not used as identities: the allocator reuses them within a run.
+//
+//go:norace
+func ObjID(p *uint64) uint64 {
+	if *p == 0 {
+		nextObj++
+		*p = nextObj
+	}
+	return *p
+}
